@@ -224,6 +224,24 @@ fn suite_c02(g: &Gram, out: &mut Out, rng: &mut Rng, thorough: bool) {
             }
         }
     }
+    // kinds that occur only as PARAMETERS of enumerants (BuiltIn, FPFastMathMode, LinkageType ...): every value of each
+    {
+        let mut seen: std::collections::HashSet<(String, u32)> = Default::default();
+        for (k, v, pk) in param_kind_sites(g) {
+            let Some((op, idx)) = site_of_kind(g, &k) else { continue };
+            for pv in sweep_values(g, &pk) {
+                if !seen.insert((pk.clone(), pv)) { continue; }
+                let mut ctx = Ctx::new();
+                let mut forced = std::collections::HashMap::new();
+                forced.insert(idx, v);
+                let n_opt_all = g.insts[&op].ops.iter().filter(|o| o.q == "ZeroOrOne").count();
+                FORCE_PARAM.with(|f| *f.borrow_mut() = Some((pk.clone(), pv)));
+                let i = gen.inst(op, rng, &mut ctx, &Plan { optionals: Some(n_opt_all), variadic: Some(1), forced });
+                FORCE_PARAM.with(|f| *f.borrow_mut() = None);
+                out.ev(asm_event(&i, &ctx.decls, "c02-param-enum"));
+            }
+        }
+    }
     // context-dependent literals: OpConstant / OpSpecConstant / OpSwitch under every supported width
     for &(is_int, width) in &[(true, 8u32), (true, 16), (true, 32), (true, 64), (false, 16), (false, 32), (false, 64)] {
         for _ in 0..(if thorough { 12 } else { 3 }) {
